@@ -249,7 +249,7 @@ def function(ip: Interp, fn: PyConst, args, kwargs, n):
         return False
     if name in ('is_ok', 'is_err', 'ok_res', 'is_failure'):
         O = S.UNIONS['Outcome']
-        x = args[0]
+        x = ip.coerce_sort(args[0], O, n)
         if name == 'is_ok':
             return O.is_o_ok(x)
         if name == 'is_err':
@@ -276,12 +276,30 @@ def function(ip: Interp, fn: PyConst, args, kwargs, n):
         n0 = z3.Length(below)
         return z3.And(z3.Length(new) >= n0 + 1, z3.Extract(new, 0, n0) == below)
     if name == 'memo_ok':
-        (d,) = args
+        d, ln = args
         O = S.UNIONS['Outcome']
+        R = S.RECORDS['RuleResultR']
         k = z3.Const('k!memo', d.f['mkeys'].sort().domain())
         v = z3.Select(d.f['mvals'], k)
-        return z3.ForAll([k], z3.Implies(z3.And(z3.Select(d.f['mkeys'], k), O.is_o_err(v)),
-                                         ip.w.exc.is_sub(O.o_err__cls(v), 'ParseException')))
+        npos = S.rec_get(O.o_ok__res(v), 'newpos')
+        return z3.ForAll([k], z3.Implies(
+            z3.Select(d.f['mkeys'], k),
+            z3.And(z3.Implies(O.is_o_err(v), ip.w.exc.is_sub(O.o_err__cls(v), 'ParseException')),
+                   z3.Implies(O.is_o_ok(v), z3.And(npos >= 0, npos <= ip.as_int(ln, n))),
+                   z3.Not(O.is_o_none(v)))))
+    if name == 'outcome_ok':
+        v, ln = args
+        O = S.UNIONS['Outcome']
+        v = ip.coerce_sort(v, O, n)
+        npos = S.rec_get(O.o_ok__res(v), 'newpos')
+        return z3.And(z3.Implies(O.is_o_err(v), ip.w.exc.is_sub(O.o_err__cls(v), 'ParseException')),
+                      z3.Implies(O.is_o_ok(v), z3.And(npos >= 0, npos <= ip.as_int(ln, n))),
+                      z3.Not(O.is_o_none(v)))
+    if name == 'submap':
+        d, old = args
+        k = z3.Const('k!sub', d.f['mkeys'].sort().domain())
+        return z3.ForAll([k], z3.Implies(z3.Select(d.f['mkeys'], k),
+                                         z3.And(z3.Select(old.f['mkeys'], k), z3.Select(d.f['mvals'], k) == z3.Select(old.f['mvals'], k))))
     if name == 'top_only':
         new, old = args
         a = ip.seq_from_end(new, 1)
